@@ -6,7 +6,7 @@ Blur: mip-chain sizes over Z, level selection and blend over Q, whole images und
 Tie to /repo, re-checked on every run:
   B1  the bodies of make_eccentricity_distance_maps, make_pooling_size_map_pixels/_lod and
       make_equi_pooling_size_map_pixels/_lod are cut from the current source, executed symbolically
-      (tracer/recipes/c18.py) and proved equal to the model for all reals (coq/tie/C18_TieA/B/C.v); the
+      (tracer/recipes/c18.py) and proved equal to the model for all reals (coq/tie/C18_TieA/B/C/D.v, semantic equality prover coq/theories/C18/TieTac.v); the
       property's clauses are then proved about the traced code itself (coq/tie/C18_TieProps.v); the
       translator is validated numerically against the real functions.
   B2  pad_image_for_pyramid: the tuple handed to ReflectionPad2d, the output size / exception and (small
@@ -619,7 +619,7 @@ def run(ctx):
     ctx.assumptions += ['real-valued model of the pooling maps: the NaN/inf behaviour of float32 is covered by the oracles (finite clause), not by the theorems',
                         'pad_image_for_pyramid returns an image only when ReflectionPad2d accepts the amounts (side > 2^(n-1)); see the open finding']
     ctx.gate()
-    ctx.ensure_theories(['theories/C18/Props.vo'])
+    ctx.ensure_theories(['theories/C18/Props.vo', 'theories/C18/TieTac.vo'])
     ctx.theorems('OdakV.C18.Props', PROPS)
     ctx.log('theorems checked')
     # ---- B1
@@ -631,7 +631,7 @@ def run(ctx):
         g = None
         ctx.obligation('translator:trace', False, repr(e))
     if g is not None:
-        ctx.compile_tie('GenC18', g.text(), [['C18_TieA', 'C18_TieB', 'C18_TieC'], ['C18_TieProps']], timeout=600)
+        ctx.compile_tie('GenC18', g.text(), [['C18_TieA', 'C18_TieD', 'C18_TieB', 'C18_TieC'], ['C18_TieProps']], timeout=600)
         try:
             self_check(ctx, g)
         except Exception as e:
